@@ -121,7 +121,8 @@ pub fn canary_world() -> Snap {
     s.insert(p("execd_src"), d(0o755));
     // p0 and p1 have the same length on purpose (a size-based "unchanged?" shortcut must not hide a change)
     s.insert(p("execd_src/p0"), f("#!/bin/sh\necho p0-aa\n", 0o755));
-    s.insert(p("execd_src/p1"), f("#!/bin/sh\necho p1-bb\n", 0o700));
+    // (same mode as well: "looks unchanged" shortcuts compare that too)
+    s.insert(p("execd_src/p1"), f("#!/bin/sh\necho p1-bb\n", 0o755));
     s.insert(p("execd_src/p2"), f("\x7fELF-not-really\x00\x01", 0o555));
     s.insert(p("execd_src/p3"), f("", 0o644));
     s
